@@ -21,7 +21,6 @@ package store
 import (
 	"context"
 	"database/sql"
-	"fmt"
 	"time"
 
 	"github.com/cockroachdb/errors"
@@ -214,8 +213,8 @@ func (m *TaskInfoMysqlStore) Put(ctx context.Context, metaObj *meta.TaskInfo, tx
 }
 
 func (m *TaskInfoMysqlStore) Get(ctx context.Context, metaObj *meta.TaskInfo, txn any) ([]*meta.TaskInfo, error) {
-	sqlStr := fmt.Sprintf("SELECT task_info_value FROM task_info WHERE task_info_key LIKE '%s%%'", getTaskInfoPrefix(m.rootPath))
-	var sqlArgs []any
+	sqlStr := "SELECT task_info_value FROM task_info WHERE task_info_key LIKE ?"
+	sqlArgs := []any{getLikePrefixPattern(getTaskInfoPrefix(m.rootPath))}
 	if metaObj.TaskID != "" {
 		sqlStr += " AND task_id = ?"
 		sqlArgs = append(sqlArgs, metaObj.TaskID)
@@ -277,7 +276,8 @@ func (m *TaskInfoMysqlStore) Delete(ctx context.Context, metaObj *meta.TaskInfo,
 	if taskID == "" {
 		return errors.New("task id is empty")
 	}
-	sqlStr := "DELETE FROM task_info WHERE task_id = ?"
+	sqlStr := "DELETE FROM task_info WHERE task_info_key = ? AND task_id = ?"
+	taskInfoKey := getTaskInfoKey(m.rootPath, taskID)
 	var err error
 	defer func() {
 		if err != nil {
@@ -297,13 +297,13 @@ func (m *TaskInfoMysqlStore) Delete(ctx context.Context, metaObj *meta.TaskInfo,
 			return err
 		}
 		defer stmt.Close()
-		_, err = stmt.ExecContext(cancelCtx, taskID)
+		_, err = stmt.ExecContext(cancelCtx, taskInfoKey, taskID)
 		if err != nil {
 			return err
 		}
 		return nil
 	}
-	_, err = m.db.ExecContext(cancelCtx, sqlStr, taskID)
+	_, err = m.db.ExecContext(cancelCtx, sqlStr, taskInfoKey, taskID)
 	if err != nil {
 		return err
 	}
@@ -396,8 +396,8 @@ func (m *TaskCollectionPositionMysqlStore) Put(ctx context.Context, metaObj *met
 }
 
 func (m *TaskCollectionPositionMysqlStore) Get(ctx context.Context, metaObj *meta.TaskCollectionPosition, txn any) ([]*meta.TaskCollectionPosition, error) {
-	sqlStr := fmt.Sprintf("SELECT task_id, collection_id, collection_name, task_position_value, op_position_value, target_position_value FROM task_position WHERE task_position_key LIKE '%s%%'", getTaskCollectionPositionPrefix(m.rootPath))
-	var sqlArgs []any
+	sqlStr := "SELECT task_id, collection_id, collection_name, task_position_value, op_position_value, target_position_value FROM task_position WHERE task_position_key LIKE ?"
+	sqlArgs := []any{getLikePrefixPattern(getTaskCollectionPositionPrefix(m.rootPath))}
 	if metaObj.TaskID != "" || metaObj.CollectionID != 0 {
 		if metaObj.TaskID != "" {
 			sqlStr += " AND task_id = ?"
@@ -482,8 +482,8 @@ func (m *TaskCollectionPositionMysqlStore) Delete(ctx context.Context, metaObj *
 	if taskID == "" {
 		return errors.New("task id is empty")
 	}
-	sqlStr := "DELETE FROM task_position WHERE task_id = ?"
-	var sqlArgs []any = []any{taskID}
+	sqlStr := "DELETE FROM task_position WHERE task_position_key LIKE ? AND task_id = ?"
+	var sqlArgs []any = []any{getLikePrefixPattern(getTaskCollectionPositionPrefix(m.rootPath)), taskID}
 	if metaObj.CollectionID != 0 {
 		sqlStr += " AND collection_id = ?"
 		sqlArgs = append(sqlArgs, metaObj.CollectionID)
